@@ -7,10 +7,15 @@
    mocked; where goom constructs a typed error the cause chain reaches it; afterwards a correct configuration
    works and Reset restores. *)
 EXTENDS Integers, Sequences, TLC
+\* mistake class x signature x position of the offending argument
+Systematic == {"apply-size@2", "apply-size@1of2", "apply-arity-fewer", "apply-result-size", "apply-result-count", "apply-no-result",
+               "apply-variadic-size", "method-apply-arity", "method-apply-no-receiver", "method-apply-size", "method-ret-few",
+               "method-ret-size", "when-few-variadic", "when-arg-size", "when-arg-size@2", "returns-size@2",
+               "uemethod-unknown", "uefunc-ret-few", "uefunc-ret-size", "iface-ret-size", "iface-ret-few", "iface-apply-size"}
 TypedCause == {"when-few", "ret-few", "iface-not-interface", "iface-first-param", "iface-arity"}
 Known == {"non-function", "when-few", "ret-few", "ret-size", "unknown-method", "unknown-symbol", "unknown-symbol-as",
           "iface-non-pointer", "iface-not-interface", "iface-first-param", "iface-arity", "iface-unknown-method",
-          "origin-too-small", "apply-arity", "apply-size"}
+          "origin-too-small", "apply-arity", "apply-size"} \cup Systematic
 Judge(e) == IF e.mistake \notin Known THEN "V:unknown-scenario"
             ELSE IF e.outcome # "rejected" THEN "V:accepted-silently"
             ELSE IF e.image # "ok" THEN "V:image-changed:" \o e.image
